@@ -61,6 +61,7 @@ CANARIES = {
         ("copy-removed", "stix2/versioning.py", "unwrap-copy", ["new_version", "copy.deepcopy", "data._inner"], "C05.pipeline"),
         ("supplied-equal-accepted", "stix2/versioning.py", "flip-compare", ["new_version", "LtE -> Lt", "new_modified"], "C05.strict-compare"),
         ("change-through-custom-properties", "stix2/versioning.py", "text", ["        changed_properties.update(kwargs[\"custom_properties\"])\n", "        pass\n"], "C05.unmodifiable"),
+        ("custom-properties-change-loses-to-old-value", "stix2/versioning.py", "text", ["                new_obj_inner.pop(prop, None)\n", "                pass\n"], "C05.pipeline"),
     ],
     "C06": [
         ("contributing-name-lost", "stix2/v21/observables.py", "drop-list-element", ["'serial_number'"], "C06.table"),
